@@ -8,7 +8,7 @@ import threading
 
 from . import trace
 
-YIELD_KINDS = {"mkdirs", "mkTmp", "openWrite", "rename", "remove", "truncate", "truncated"}   # os.link / os.rmdir arrive as rename / remove sites
+YIELD_KINDS = {"mkdirs", "mkTmp", "openWrite", "rename", "remove", "truncate", "truncated", "tmpWrite"}   # os.link / os.rmdir arrive as rename / remove sites
 
 
 class Deadlock(Exception):
@@ -85,6 +85,7 @@ class Sched:
         self.trace = []                         # (worker, label) of every resumed step
         self.tid = {}
         self.blocked_attempts = 0
+        self.tmp_write_points = False           # writes into temp files are scheduling points too (C09's concurrent part)
         self.on_event = None                    # optional observer: on_event(kind, relpath) after every mutating primitive
         self.install_conditions(mp_mode)
 
@@ -158,6 +159,7 @@ class Sched:
         threads = [threading.Thread(target=self.worker, args=(i,), daemon=True) for i in range(self.n)]
         tracer = trace.Tracer(self.real.root, on_point=self.on_point,
                               on_event=(lambda kind, rel: self.on_event(kind, rel)) if self.on_event else None)
+        tracer.point_on_tmp_write = self.tmp_write_points
         tracer.on_flock_wait = lambda rel: self.yield_point(("flock-wait", rel))
         # the truncate of an r+ rewrite is a scheduling point too
         orig_event = tracer.event
